@@ -219,6 +219,11 @@ def run_case(case) -> Outcome:
         else:
             for m in o["members"]:
                 decl[(o["index"], m["sub"])] = m["dt"]
+            if o["kind"] == "array":
+                # members 2..255 that are not listed are described by member 1
+                tmpl = [m for m in o["members"] if m["sub"] == 1][0]
+                for sub in range(1, 256):
+                    decl.setdefault((o["index"], sub), tmpl["dt"])
     D = []
     nontrivial = False
     klass = []
@@ -310,7 +315,10 @@ def enum_cases():
           {"kind": "record", "index": 0x2005, "name": "rec", "members": [
               {"sub": 0, "name": "n", "dt": rc.UNSIGNED8},
               {"sub": 1, "name": "a", "dt": rc.UNSIGNED32},
-              {"sub": 2, "name": "b", "dt": rc.OCTET_STRING}]}]
+              {"sub": 2, "name": "b", "dt": rc.OCTET_STRING}]},
+          {"kind": "array", "index": 0x2006, "name": "arr", "members": [
+              {"sub": 0, "name": "n", "dt": rc.UNSIGNED8},
+              {"sub": 1, "name": "el", "dt": rc.UNSIGNED16}]}]
     for n in range(0, 65):
         data = _payload(n, n)
         chunkings = [[n] if n else [], [1] * n, [3] * (n // 3), [7] * (n // 7), [8] * (n // 8),
@@ -324,13 +332,19 @@ def enum_cases():
         yield {"od": od, "xfers": [{"op": "dl", "index": 0x2005, "sub": 2, "data": data,
                                     "route": "var_data", "toplevel": False}]}
         i = 0
+        uniq = []
+        for ch in chunkings + [[2, 1, 1], [1, 2, 1], [1, 1, 2], [2, 2], [1, 3], [3, 1], [4, 4, 4], [6, 1, 7]]:
+            if ch not in uniq and sum(ch) <= n:
+                uniq.append(ch)
         for buffering in BUFFERINGS:
             for size_decl in (True, False):
-                ch = chunkings[i % len(chunkings)]
-                i += 1
-                yield {"od": od, "xfers": [{"op": "dl", "index": 0xFFFF - n, "sub": 255 - n, "data": data,
-                                            "route": "open", "size_decl": size_decl, "buffering": buffering,
-                                            "force": (i % 5 == 0), "chunks": ch}]}
+                # every chunking for the short payloads, a rotating one above
+                for ch in (uniq if n <= 9 else [uniq[i % len(uniq)], uniq[(i // 2 + 1) % len(uniq)]]):
+                    i += 1
+                    yield {"od": od, "xfers": [{"op": "dl", "index": 0xFFFF - n, "sub": 255 - n,
+                                                "data": data, "route": "open", "size_decl": size_decl,
+                                                "buffering": buffering, "force": (i % 5 == 0),
+                                                "chunks": ch}]}
         yield {"od": od, "xfers": [{"op": "dl", "index": 0x2000, "sub": 0, "data": data, "route": "open",
                                     "var_open": True, "toplevel": True, "size_decl": True,
                                     "buffering": 1024, "chunks": [n] if n else []}]}
@@ -341,7 +355,8 @@ def enum_cases():
                                         "chunks": chunkings[(n + buffering) % len(chunkings)]}]}
         # uploads
         for style in styles_for(n):
-            for idx, sub in ((0x2000, 0), (0x2001, 0), (0x2002, 0), (0x2003, 0), (0x2005, 1), (0x3000 + n, n)):
+            for idx, sub in ((0x2000, 0), (0x2001, 0), (0x2002, 0), (0x2003, 0), (0x2005, 1), (0x3000 + n, n),
+                             (0x2006, 1), (0x2006, 2 + n), (0x2006, 255)):
                 yield {"od": od, "xfers": [{"op": "ul", "index": idx, "sub": sub, "data": data,
                                             "style": style, "route": "upload"}]}
             yield {"od": od, "xfers": [{"op": "ul", "index": 0x2002, "sub": 0, "data": data,
@@ -389,8 +404,13 @@ def history(draw, max_len):
             continue
         used.add(index)
         dts = FIXED + list(rc.STRINGS)
-        if draw(st.booleans()):
+        shape = draw(st.integers(0, 3))
+        if shape <= 1:
             od.append({"kind": "var", "index": index, "name": f"v{i}", "dt": draw(st.sampled_from(dts))})
+        elif shape == 2:
+            od.append({"kind": "array", "index": index, "name": f"a{i}", "members": [
+                {"sub": 0, "name": "n", "dt": rc.UNSIGNED8},
+                {"sub": 1, "name": "el", "dt": draw(st.sampled_from(dts))}]})
         else:
             subs = sorted(draw(st.sets(st.integers(1, 255), min_size=1, max_size=3)))
             od.append({"kind": "record", "index": index, "name": f"r{i}", "members":
@@ -403,6 +423,9 @@ def history(draw, max_len):
         else:
             for m in o["members"]:
                 ent.append((o["index"], m["sub"], m["dt"], False))
+            if o["kind"] == "array":
+                for sub in sorted(draw(st.sets(st.integers(2, 255), max_size=2))):
+                    ent.append((o["index"], sub, o["members"][1]["dt"], False))
     xfers = []
     for _ in range(draw(st.integers(1, 6))):
         in_od = bool(ent) and draw(st.booleans())
